@@ -1,6 +1,7 @@
 import ComposeVerif.Props.C05Anchor
 import ComposeVerif.Props.C01Whole
 import ComposeVerif.Model.ExtendsLoad
+import ComposeVerif.Lemmas.ExtendsNoCircular
 /-!
 # C05 — extends through files: the nested load inside the model  (round 6)
 
@@ -17,7 +18,8 @@ Here, for **every** configuration `c`, every virtual file system `vfs`, every ma
 * the nested load and the path resolution never panic (`loadedFS_never_panics`, from C01's `processDoc_only_panic_sites`
   and C12's `resolve_never_panics`), so `PanicFree` and `FuelFree` hold outright: **no fuel and no environment hypothesis
   is left** in `extends_terminates_loaded`, `applyExtendsV_ok_or_err`, `extends_eq_flatten_loaded`,
-  `extends_eq_chain_fold_loaded`, `cycle_is_circular_loaded`, `circular_sound_loaded`, `applyExtends_perm_loaded`;
+  `extends_eq_chain_fold_loaded`, `cycle_is_circular_loaded`, `circular_sound_loaded` (the merge half of `NoCircularEnv` is
+  proved too: `realEnv_noCircular`), `circular_iff_cyclic_loaded`, `applyExtends_perm_loaded`;
 * every element of a chain of any length that is attributed to file `f` is a service of `f`'s raw document after the
   nested load, resolved against **`f`'s own directory** (`chain_elements_loaded`).
 -/
@@ -198,16 +200,42 @@ theorem loadedFS_not_circular (c : Pipeline.Cfg) (vfs : VFS)
       · rw [h''] at hr; cases hr
       · rw [h''] at hr; cases hr
 
+/-- **`NoCircularEnv` discharged for the real merge step**: the class `circular` is the tracker's own — the C04 merge
+model returns only `cannotOverride`, `unexpectedType`, `unknown-merger`, `top-level` (`mergeExtend_not_circular`: induction
+over the merge, `Lemmas/ExtendsNoCircular.lean`) -/
+theorem realEnv_noCircular (mainFile : String) (fs : FS) (hfs : ∀ f, fsLookup f fs ≠ some (.err "circular")) :
+    NoCircularEnv (realEnv mainFile fs) :=
+  ⟨mergeExtend_not_circular, hfs⟩
+
 /-- **cycle detection is sound** through raw files: `Circular reference` ⇒ some service's chain really runs into a
-cycle (`hmerge`: the merge step does not itself return the tracker's class — `c05.extend` never saw it) -/
+cycle — in every visit order, also in documents with other defects; no hypothesis on the merge step or the loading left
+(`hbad`: a file that cannot be read is not reported with the tracker's class) -/
 theorem circular_sound_loaded (c : Pipeline.Cfg) (vfs : VFS) {order : List String} {dict S : KVs}
-    (hmerge : ∀ b s, mergeExtend b s ≠ .err "circular")
     (hbad : ∀ f cls, (f, VFile.bad cls) ∈ vfs → cls ≠ "circular")
     (hS : lookup "services" dict = some (.map S)) (hnn : NoNull S) (hfs : NoNullFS (loadedEnv c vfs))
     (hmain : fileServices (loadedFS c vfs) c.mainFile = none) (hord : Visits order S)
     (h : applyExtendsV c vfs order dict = .err "circular") :
     ∃ n, n ∈ order ∧ Cyclic (loadedEnv c vfs) (S, n) :=
-  circular_sound (E := loadedEnv c vfs) ⟨hmerge, loadedFS_not_circular c vfs hbad⟩ hS hnn hfs hmain hord h
+  circular_sound (E := loadedEnv c vfs) (realEnv_noCircular _ _ (loadedFS_not_circular c vfs hbad)) hS hnn hfs hmain hord h
+
+/-- … and through canonical files (`anchoredFS`): sound with no environment hypothesis at all -/
+theorem circular_sound_anchored (mainFile : String) (files : List (String × String × KVs))
+    {order : List String} {dict S : KVs}
+    (hS : lookup "services" dict = some (.map S)) (hnn : NoNull S)
+    (hfs : NoNullFS (realEnv mainFile (anchoredFS files)))
+    (hmain : fileServices (anchoredFS files) mainFile = none) (hord : Visits order S)
+    (h : applyExtendsOrd (realEnv mainFile (anchoredFS files)) order dict = .err "circular") :
+    ∃ n, n ∈ order ∧ Cyclic (realEnv mainFile (anchoredFS files)) (S, n) :=
+  circular_sound (realEnv_noCircular _ _ (anchoredFS_not_circular files)) hS hnn hfs hmain hord h
+
+/-- **sound and complete in one statement** through raw files: for a document whose services each flatten or run into a
+cycle, `ApplyExtends` answers `circular` **iff** a cyclic chain exists — every visit order -/
+theorem circular_iff_cyclic_loaded (c : Pipeline.Cfg) (vfs : VFS) {order : List String} {dict S : KVs}
+    (hS : lookup "services" dict = some (.map S))
+    (hmain : fileServices (loadedFS c vfs) c.mainFile = none) (hord : Visits order S)
+    (hall : ∀ n, lookup n S ≠ none → (∃ v, Flat (loadedEnv c vfs) S n v) ∨ Cyclic (loadedEnv c vfs) (S, n)) :
+    applyExtendsV c vfs order dict = .err "circular" ↔ ∃ n, lookup n S ≠ none ∧ Cyclic (loadedEnv c vfs) (S, n) :=
+  circular_iff_cyclic (E := loadedEnv c vfs) (loadedEnv_panicFree c vfs).fuelFree hS hmain hord hall
 
 /-! ### anchoring through the nested load -/
 
